@@ -1266,7 +1266,17 @@ func (p *balloons) Reconfigure(newCfg interface{}) error {
 		return err
 	}
 	log.Info("config updated successfully")
-	if err := p.Sync(p.cch.GetContainers(), p.cch.GetContainers()); err != nil {
+	// Re-admit only containers that are created or running. Stopped
+	// containers have released their resources and must not regain them.
+	all := p.cch.GetContainers()
+	alive := make([]cache.Container, 0, len(all))
+	for _, c := range all {
+		switch c.GetState() {
+		case cache.ContainerStateCreated, cache.ContainerStateRunning:
+			alive = append(alive, c)
+		}
+	}
+	if err := p.Sync(alive, all); err != nil {
 		log.Warnf("failed to sync containers: %v", err)
 	}
 	return nil
